@@ -24,6 +24,8 @@ type CycleRec struct {
 	Shares    []Share
 	Panic     string
 	Complaints int
+	Sizes      []SizeObs // gate size vs charged size of every job placed in the cycle (world.go RunActions)
+	Partial    int       // jobs of which only some of the pods the scheduler meant to place next were placed
 }
 
 type Trace struct {
@@ -51,6 +53,7 @@ func Run(w *World, maxCycles int) *Trace {
 		rec.Panic = RunActions(b, w.Cfg.Actions)
 		rec.Calls = b.Rec.calls
 		rec.Complaints = len(b.Rep.msgs)
+		rec.Sizes, rec.Partial = b.Sizes, b.PartialPlacements
 		rec.Evictions = w.Apply(rec.Calls)
 		rec.After = w.Canon()
 		totalEv += rec.Evictions
@@ -109,6 +112,34 @@ func callsDesc(cs []Call) string {
 	return strings.Join(d, " ")
 }
 
+// SizeTolerance: a shared device's portion is rounded up to 1/100 GPU when it is charged (node_info
+// getGpuMemoryFractionalOnNode: ceil(100*memory/deviceMemory)/100), the gate counts the exact quotient
+const sizeEps = 1e-5
+
+// Undercounted: the gate counted the job by less than it is charged (beyond the rounding of the charged portions).
+func (o SizeObs) Undercounted() bool { return o.Charged > o.Gate+0.01*float64(o.Devices)+sizeEps }
+
+// Overcounted: ... by more, although every pod sits on a device of the memory the gate divides by.
+func (o SizeObs) Overcounted() bool { return o.Homogeneous && o.Gate > o.Charged+sizeEps }
+
+func sizesDesc(os []SizeObs) string {
+	var d []string
+	for _, o := range os {
+		tag := ""
+		if o.Undercounted() {
+			tag = " UNDERCOUNTED"
+		} else if o.Overcounted() {
+			tag = " OVERCOUNTED"
+		}
+		ev := ""
+		if o.Evicting {
+			ev = ",evicting"
+		}
+		d = append(d, fmt.Sprintf("%s(%s%s,%s): gate %g charged %g%s", o.Job, o.Action, ev, o.Kind, o.Gate, o.Charged, tag))
+	}
+	return strings.Join(d, "; ")
+}
+
 func groupsDesc(gs []string) string {
 	if len(gs) == 0 {
 		return ""
@@ -125,6 +156,9 @@ func Describe(w *World) string {
 			sb.WriteString(" ")
 		}
 		fmt.Fprintf(&sb, "%s:gpu%d,cpu%d", n.Name, n.Gpus, n.Cpu)
+		if n.GpuMem > 0 {
+			fmt.Fprintf(&sb, ",gpumem%d", n.GpuMem)
+		}
 	}
 	sb.WriteString("] depts[")
 	for i, d := range w.Depts {
@@ -154,6 +188,12 @@ func Describe(w *World) string {
 			if p.Fraction != "" {
 				req = "f" + p.Fraction
 			}
+			if p.GpuMemory > 0 {
+				req = fmt.Sprintf("m%d", p.GpuMemory)
+			}
+			if p.NumDev > 0 {
+				req += fmt.Sprintf("x%d", p.NumDev)
+			}
 			if p.Cpu > 0 {
 				req += fmt.Sprintf("c%d", p.Cpu)
 			}
@@ -176,6 +216,9 @@ func (tr *Trace) Dump() string {
 		}
 		fmt.Fprintf(&sb, "           shares{%s}\n", strings.Join(sh, " "))
 		fmt.Fprintf(&sb, "           decisions: %s\n", callsDesc(c.Calls))
+		if len(c.Sizes) > 0 {
+			fmt.Fprintf(&sb, "           sizes: %s\n", sizesDesc(c.Sizes))
+		}
 		if c.Panic != "" {
 			fmt.Fprintf(&sb, "           PANIC %s\n", strings.SplitN(c.Panic, "\n", 2)[0])
 		}
